@@ -472,6 +472,176 @@ def delims(rc):
                 construct="UAI numbering")
 
 
+
+# ------------------------------------------------------------------------------------------------
+_SAMPLE_BIF = (
+    "network unknown {\n}\n"
+    "variable b {\n    type discrete [ 2 ] { variable, probability };\n}\n"
+    "variable variable {\n    type discrete [ 2 ] { s0, s1 };\n}\n"
+    "variable probability {\n    type discrete [ 2 ] { s0, s1 };\n}\n"
+    "variable z {\n    type discrete [ 2 ] { s0, s1 };\n}\n"
+    "probability ( b ) {\n    table 0.3, 0.7 ;\n}\n"
+    "probability ( variable ) {\n    table 0.3, 0.7 ;\n}\n"
+    "probability ( probability ) {\n    table 0.3, 0.7 ;\n}\n"
+    "probability ( z | b, variable ) {\n    ( variable, s0 ) 0.1, 0.9;\n    ( variable, s1 ) 0.1, 0.9;\n    ( probability, s0 ) 0.1, 0.9;\n    ( probability, s1 ) 0.1, 0.9;\n}\n"
+)
+_SAMPLE_BIF_BLOCKS = {"BIFReader.variable_block": 4, "BIFReader.probability_block": 4}
+
+
+def _re_flags(c):
+    fl = 0
+    e = kwarg(c, "flags") or (c.args[2] if len(c.args) > 2 else None)
+    if e is None:
+        return 0
+    for n in ast.walk(e):
+        if isinstance(n, ast.Attribute) and dotted(n.value) == "re":
+            fl |= int(getattr(re, n.attr, 0))
+    return fl
+
+
+@rule("C09.keywords", "names that contain (or are) format keywords do not change how a file is split into declarations: BIF block patterns on a sample file, "
+      "BIF values searched in the block body only, NET node introducer a Keyword", floor=4)
+def keywords(rc):
+    """The writers emit user names verbatim, and `variable`, `probability`, `table1`, `lymph_node` are identifiers.  (a) the BIF block patterns are constants:
+    they are applied to a sample file whose names and states are the keywords themselves and must find exactly the declarations; (b) pyparsing literals match
+    prefixes of longer words, so the value grammar (`table`/`default` + numbers) may only be searched in the body of a probability block — the header holds
+    names — unless those keywords are `Keyword`s; (c) an expression scanned over the whole NET file that consists of a literal followed by a free word matches
+    inside any name ending in the literal, unless the literal is a `Keyword`."""
+    repo = rc.repo
+    for q, want in _SAMPLE_BIF_BLOCKS.items():
+        f = repo.func(BIF, q)
+        cs = [c for c in repo.calls_in(f) if call_name(c) in ("finditer", "findall") and dotted(c.func.value) == "re"]
+        if len(cs) != 1 or const_str(cs[0].args[0]) is None:
+            raise AnalysisError(f"{q}: block pattern not found")
+        pat = const_str(cs[0].args[0])
+        try:
+            got = len(list(re.finditer(pat, _SAMPLE_BIF, _re_flags(cs[0]))))
+        except re.error:
+            raise AnalysisError(f"{q}: invalid pattern {pat!r}")
+        rc.ob(f"{q}: pattern {pat!r} finds {got} block(s) in the sample file of {want} declarations whose names/states are `variable`/`probability`")
+        if got != want:
+            rc.fail(f, cs[0], f"{q}: the pattern {pat!r} finds {got} blocks in a file with {want} declarations when a parent, variable or state is called "
+                    f"`variable`/`probability` (e.g. `| b, variable ) {{` at the end of a probability header)", construct=f"{q} keyword-named variable")
+    # (b)
+    vb = repo.func(BIF, "BIFReader._get_values_from_block")
+    gg = repo.func(BIF, "BIFReader.get_probability_grammar")
+    cs = [c for c in repo.calls_in(vb) if call_name(c) in ("searchString", "scanString") and norm(c.func.value) == "self.cpd_expr"]
+    if len(cs) != 1 or not cs[0].args:
+        raise AnalysisError("BIF: value search not found")
+    params = set(vb.params)
+    arg = cs[0].args[0]
+    whole = isinstance(arg, ast.Name) and arg.id in params
+    kw_lits = [c for c in repo.calls_in(gg) if call_name(c) in ("Suppress", "Literal", "CaselessLiteral") and c.args and const_str(c.args[0]) in ("table", "default")]
+    rc.ob(f"BIF values searched in `{norm(arg, 60)}`; bare table/default literals in the grammar: {len(kw_lits)}")
+    if whole and kw_lits:
+        rc.fail(vb, cs[0], "BIF: the value grammar (`table`/`default` literal + numbers) is searched over the whole probability block including its header; "
+                "pyparsing literals match prefixes, so the header `probability ( table1 ) {` of a root variable called table1/default2 yields a bogus value",
+                construct="BIF values searched in header")
+    # (c)
+    g = repo.func(NET, "NETReader.get_variable_grammar")
+    n = 0
+    for c in repo.calls_in(g):
+        if call_name(c) in ("Suppress", "Literal") and c.args and (const_str(c.args[0]) or "").strip() == "node":
+            n += 1
+            rc.fail(g, c, f"NET: `{norm(c)}` followed by a free word is scanned over the whole file and also matches inside `potential (z | lymph_node b)`: "
+                    "the node introducer must be a Keyword", construct="NET node introducer literal")
+    kws = [c for c in repo.calls_in(g) if call_name(c) in ("Keyword", "CaselessKeyword") and c.args and const_str(c.args[0]) == "node"]
+    rc.ob(f"NET node introducer: {len(kws)} Keyword(s), {n} bare literal(s)")
+    if not kws and not n:
+        raise AnalysisError("NET: node introducer not found")
+
+
+def _blocks(root):
+    for n in ast.walk(root):
+        for fld in ("body", "orelse", "finalbody"):
+            b = getattr(n, fld, None)
+            if isinstance(b, list) and b and isinstance(b[0], ast.stmt):
+                yield b
+
+
+@rule("C09.single", "UAI reader: a named repetition `(token * n)` is a bare token when n == 1 and is wrapped before it is used as a sequence; "
+      "both network types declare every variable of the preamble", floor=4)
+def single(rc):
+    """pyparsing returns the value of a results name that matched ONE token as the token itself (a str, or an int after the parse action), not as a list.  The
+    reader's repetitions are sized by the file (number of variables, scope size, table size), so every read of such a name is followed by an isinstance guard
+    that wraps the single token — otherwise `list("1.0")` becomes ['1', '.', '0'] for a one-entry table (a single-state root variable)."""
+    repo = rc.repo
+    g = repo.func(UAI, "UAIReader.get_grammar")
+    d = _defs(g)
+    reps = {}
+    for _n, m in tm.find_all(g.node, "(__E * __N).setResultsName(__K)", nested=True):
+        k = m["__K"]
+        pref = const_str(k) if const_str(k) is not None else (const_str(k.left) if isinstance(k, ast.BinOp) else None)
+        if pref is None:
+            raise AnalysisError(f"UAI grammar: results name {norm(k)} not understood")
+        e = m["__E"]
+        while isinstance(e, ast.Name) and e.id in d:
+            e = d[e.id][0]
+        tok = "int" if any(call_name(c) == "setParseAction" and "int(" in norm(c) for c in ast.walk(e) if isinstance(c, ast.Call)) else "str"
+        reps[pref] = tok
+    rc.ob(f"UAI grammar: repetitions read by name: {reps}")
+    if len(reps) < 3:
+        raise AnalysisError(f"UAI grammar: expected the domain, scope and table repetitions, found {sorted(reps)}")
+    cls = repo.module(UAI).classes["UAIReader"]
+    nreads = 0
+    for f in cls.methods.values():
+        reads = []
+        for n in ast.walk(f.node):
+            if isinstance(n, ast.Subscript) and any(isinstance(c, ast.Call) and call_name(c) == "parseString" for c in ast.walk(n.value)):
+                k = n.slice
+                pref = const_str(k) if const_str(k) is not None else (const_str(k.left) if isinstance(k, ast.BinOp) else None)
+                if pref in reps:
+                    reads.append((n, pref))
+        for n, pref in reads:
+            nreads += 1
+            # the read must be bound to a name, and the NEXT statement of the same block wraps the single token: isinstance(name, <token type>) -> [name]
+            ok = False
+            for blk in _blocks(f.node):
+                for i, st in enumerate(blk[:-1]):
+                    if not (isinstance(st, ast.Assign) and st.value is n and len(st.targets) == 1 and isinstance(st.targets[0], ast.Name)):
+                        continue
+                    holder, nxt = st.targets[0].id, blk[i + 1]
+                    if isinstance(nxt, ast.If) and not nxt.orelse:
+                        t = tm.is_(nxt.test, "isinstance(_V, __T)")
+                        if t and t["_V"] == holder and reps[pref] in [x.id for x in ast.walk(t["__T"]) if isinstance(x, ast.Name)] and len(nxt.body) == 1 \
+                                and isinstance(nxt.body[0], ast.Assign) and norm(nxt.body[0].targets[0]) == holder and isinstance(nxt.body[0].value, (ast.List, ast.Tuple)):
+                            ok = True
+                    if isinstance(nxt, ast.Assign) and norm(nxt.targets[0]) == holder and isinstance(nxt.value, ast.IfExp):
+                        t = nxt.value.test
+                        neg = isinstance(t, ast.UnaryOp) and isinstance(t.op, ast.Not)
+                        mm = tm.is_(t.operand if neg else t, "isinstance(_V, __T)")
+                        wrapped = nxt.value.orelse if neg else nxt.value.body
+                        if mm and mm["_V"] == holder and reps[pref] in [x.id for x in ast.walk(mm["__T"]) if isinstance(x, ast.Name)] and isinstance(wrapped, (ast.List, ast.Tuple)):
+                            ok = True
+            rc.ob(f"{f.qual}: read of `{pref}…` ({reps[pref]} tokens) {'wrapped when single' if ok else 'NOT wrapped'}")
+            if not ok:
+                rc.fail(f, n, f"{f.qual}: the parse result `{pref}…` is a bare {reps[pref]} when the repetition has one element (one variable / one-entry table of a "
+                        f"single-state root variable) but is used as a sequence without an isinstance guard", construct=f"{f.qual} single-token {pref}")
+    if nreads < 4:
+        raise AnalysisError(f"UAI reader: expected at least 4 reads of repetition results, found {nreads}")
+    # both network types declare all variables
+    gm = repo.func(UAI, "UAIReader.get_model")
+    branches = [st for st in ast.walk(gm.node) if isinstance(st, ast.If) and "self.network_type" in norm(st.test)]
+    if not branches:
+        raise AnalysisError("UAIReader.get_model: network type dispatch not found")
+    seen = 0
+    todo = [branches[0]]
+    while todo:
+        br = todo.pop()
+        seen += 1
+        body = ast.Module(body=br.body, type_ignores=[])
+        decl = [c for c in ast.walk(body) if isinstance(c, ast.Call) and call_name(c) in ("add_nodes_from", "add_node") and "self.variables" in norm(c)]
+        decl += [c for c in ast.walk(body) if isinstance(c, ast.Call) and isinstance(c.func, ast.Name) and any(norm(a) == "self.variables" for a in c.args)]
+        rc.ob(f"UAIReader.get_model [{norm(br.test, 50)}]: variables of the preamble declared: {bool(decl)}")
+        if not decl:
+            rc.fail(gm, br, f"UAIReader.get_model [{norm(br.test, 50)}]: the model is built from the edges only; a variable that occurs in unary factors only is not a node "
+                    "and add_factors rejects its factor", construct=f"UAIReader.get_model {norm(br.test, 50)} nodes")
+        if len(br.orelse) == 1 and isinstance(br.orelse[0], ast.If):
+            todo.append(br.orelse[0])
+    if seen < 2:
+        raise AnalysisError("UAIReader.get_model: expected a BAYES and a MARKOV branch")
+
+
 @rule("C09.dispatch", "save/load support the same formats and pair writer and reader of the same format", floor=2)
 def dispatch(rc):
     repo = rc.repo
@@ -554,6 +724,26 @@ MUTANTS = [
          old="cpt_string = np.array2string(cpt_array, threshold=cpt_array.size + 1)", new="cpt_string = str(cpt_array)"),
     dict(kind="break", name="load-uai-with-bif-reader", file=BN, expect="C09.dispatch",
          old="            reader = UAIReader(path=filename)\n            return reader.get_model()", new="            reader = BIFReader(path=filename)\n            return reader.get_model()"),
+    dict(kind="break", name="bif-values-searched-in-header", file=BIF, expect="C09.keywords",
+         old='cpds = self.cpd_expr.searchString(block[block.index("{") + 1 :])', new="cpds = self.cpd_expr.searchString(block)"),
+    dict(kind="break", name="bif-variable-pattern-unanchored", file=BIF, expect="C09.keywords",
+         old='start = re.finditer(r"(?m)^[ \\t]*variable\\s+[^\\s{]+\\s*\\{", self.network)', new='start = re.finditer(r"\\bvariable\\s+[^\\s{]+\\s*\\{", self.network)'),
+    dict(kind="break", name="net-node-literal", file=NET, expect="C09.keywords",
+         old='name_expr = Suppress(Keyword("node")) + word_expr + Optional(Suppress("{"))', new='name_expr = Suppress("node ") + word_expr + Optional(Suppress("{"))'),
+    dict(kind="break", name="uai-values-single-token-unwrapped", file=UAI, expect="C09.single",
+         old="                if isinstance(values, str):\n                    values = [values]\n                tables.append((child_var, list(values)))",
+         new="                tables.append((child_var, list(values)))"),
+    dict(kind="break", name="uai-domain-single-token-unwrapped", file=UAI, expect="C09.single",
+         old="        if isinstance(var_domain, str):\n            var_domain = [var_domain]\n", new=""),
+    dict(kind="break", name="uai-scope-single-token-unwrapped", file=UAI, expect="C09.single",
+         old="            if isinstance(function_variables, int):\n                function_variables = [function_variables]\n            if self.network_type == \"BAYES\":\n                child_var = \"var_\" + str(function_variables[-1])\n                values",
+         new="            if self.network_type == \"BAYES\":\n                child_var = \"var_\" + str(function_variables[-1])\n                values"),
+    dict(kind="break", name="uai-markov-nodes-from-edges-only", file=UAI, expect="C09.single",
+         old="            model.add_nodes_from([var for var in self.variables if var not in model])\n", new=""),
+    dict(kind="twin", name="uai-single-token-ifexp", file=UAI,
+         old="        if isinstance(var_domain, str):\n            var_domain = [var_domain]\n", new="        var_domain = [var_domain] if isinstance(var_domain, str) else var_domain\n"),
+    dict(kind="twin", name="bif-values-body-by-split", file=BIF,
+         old='cpds = self.cpd_expr.searchString(block[block.index("{") + 1 :])', new='cpds = self.cpd_expr.searchString(block.split("{", 1)[1])'),
     dict(kind="twin", name="xmlbif-both-c-order-consistently", file=XML,
          old="for val in compat_fns.ravel_f(cpd.get_values()):", new="for val in cpd.get_values().T.ravel():"),
     dict(kind="twin", name="net-reader-fortran-reshape", file=NET,
